@@ -565,8 +565,14 @@ def rule_densify(prog: Program, modules: Optional[Set[str]] = None) -> List[Inst
             key = next((k for k in DENSIFY_EXEMPT if fi.qual.startswith(k)), None)
             has_res = any(k.arg == "resolution" for k in n.keywords) or len(n.args) >= 2 or any(k.arg is None for k in n.keywords)
             pre = any(isinstance(c, ast.Call) and call_name(c) in ("footprint", "segmented", "densify") for c in ast.walk(recv))
-            if not pre and isinstance(recv, ast.Name):
-                pre = any(isinstance(x, ast.Assign) and any(isinstance(t, ast.Name) and t.id == recv.id for t in x.targets) and any(isinstance(c, ast.Call) and call_name(c) in ("footprint", "segmented") for c in ast.walk(x.value)) for x in walk_own(fi.node))
+            if not pre:
+                # ... or every geometry name the receiver is built from is bound to an already densified outline
+                # (fp_src = a.footprint(..); fp_dst = b.footprint(..); (fp_src & fp_dst).to_crs(..))
+                rnames = [x.id for x in ast.walk(recv) if isinstance(x, ast.Name)]
+                def _dens(nm: str) -> bool:
+                    return any(isinstance(x, ast.Assign) and any(isinstance(t, ast.Name) and t.id == nm for t in x.targets) and any(isinstance(c, ast.Call) and call_name(c) in ("footprint", "segmented", "densify") for c in ast.walk(x.value)) for x in walk_own(fi.node))
+                gnames = [nm for nm in rnames if nm not in ("self", "cls")]
+                pre = bool(gnames) and all(_dens(nm) for nm in gnames)
             pointlike = any(isinstance(c, ast.Attribute) and c.attr in ("centroid",) for c in ast.walk(recv)) or any(isinstance(c, ast.Call) and call_name(c) in ("point", "multipoint") for c in ast.walk(recv))
             if has_res or pre or pointlike:
                 out.append(Instance("R-DENSIFY", cid, OK, "densification requested" if has_res else "projects an already densified footprint" if pre else "points have no edges", fi.where(n)))
